@@ -8,6 +8,8 @@ package vigil
 import (
 	"sync"
 	"sync/atomic"
+
+	"github.com/hydraide/hydraide/app/verifhook"
 )
 
 // Vigil is an interface for managing the state of ongoing operations within the Hydra database.
@@ -73,6 +75,7 @@ func (v *vigil) WaitForActiveVigilsClosed() {
 	v.cond.L.Lock()
 	defer v.cond.L.Unlock()
 	for v.HasActiveVigils() {
+		verifhook.Point("vigil.wait.beforeWait")
 		v.cond.Wait()
 	}
 }
